@@ -848,71 +848,193 @@ def rule_X4(F, R, clauses=('parse', 'order', 'model', 'retain', 'export', 'vars'
 
 # ------------------------------------------------------------------------------------------------ X5 counter invariant
 def rule_X5(F, R):
+    """Fresh-id counter invariant of the tokenizer, decided by symbolic execution of every registration step (one iteration of the
+    loop that contains an insert into the name table), over linear integer terms:
+       after the step   counter' >= inserted id + 1   and   counter' >= counter       (the counter stays above every registered id)
+       a fresh id       is >= counter                                                   (so it differs from every id registered before)
+    and a name is looked up in the table before a fresh id is taken for it.  The counter and the table are found by role: the mutable
+    integer local initialised to 0 that is written again, and the map that receives (name, integer id) pairs."""
+    from logic import Lin, And, Not, TRUE, find_counterexample
     lib = F.lib()
     fn = 'rsbdd::parser::SymbolicBDD::tokenize'
     t = lib.ithir.get(fn)
     if t is None:
         R.violation(fn + ' / X5 / anchor', 'UNDECIDABLE', 'tokenize not found'); return
+    INT = ('usize', 'u64', 'u32', 'isize', 'i64', 'i32')
+    # roles
+    assigned = set(root_var(x['lhs']) for x in walk(t['body']) if x['k'] in ('Assign', 'AssignOp'))
+    ctrs = []
+    for blk in walk(t['body']):
+        if blk['k'] != 'Block': continue
+        for st in blk['stmts']:
+            if st['k'] == 'Let' and st.get('init') is not None:
+                q = unwrap_pat(st['pat']); i0 = strip(st['init'])
+                if q['k'] == 'Binding' and q.get('mutable') and i0['k'] == 'Literal' and str(i0.get('value')) == '0' and q['var'] in assigned and st['init']['ty'].get('s') in INT: ctrs.append(q['var'])
+    inserts = [x for x in walk(t['body']) if x['k'] == 'Call' and callee_name(x) == 'std::collections::HashMap::insert' and len(x['args']) == 3 and x['args'][2]['ty'].get('s') in INT]
+    tables = set(root_var(x['args'][0]) for x in inserts) - {None}
+    if len(ctrs) != 1 or len(tables) != 1:
+        R.violation(fn + ' / X5 / roles', 'UNDECIDABLE', 'cannot identify the fresh-id counter (%d candidates) and the name table (%d candidates) of the tokenizer' % (len(ctrs), len(tables))); return
+    CTR = ctrs[0]; TBL = tables.pop()
+    C0 = Lin.var(('int', 'counter'))
+    class Undec(Exception): pass
+    syms = {}
+    def sym(key):
+        return Lin.var(('int', key))
+    def ev(e, env):
+        """integer value of e as a Lin, or a list of (constraint, Lin) alternatives for max/min"""
+        e = strip(e)
+        while e['k'] in ('Cast',): e = strip(e['source'])
+        k = e['k']
+        if k == 'Literal' and e.get('lit') == 'Int': return [(TRUE, Lin.const(int(e['value'])))]
+        if k in ('VarRef', 'UpvarRef'):
+            if e['var'] in env and env[e['var']] is not None: return [(TRUE, env[e['var']])]
+            return [(TRUE, sym('v:' + e['var']))]
+        if k == 'Field': return [(TRUE, sym('f:%s.%s' % (root_var(e['lhs']), e.get('field_name', e.get('field'))))) ]
+        if k == 'Binary' and e['op'] in ('Add', 'Sub'):
+            out = []
+            for (c1, a_) in ev(e['lhs'], env):
+                for (c2, b_) in ev(e['rhs'], env):
+                    out.append((And(c1, c2), a_ + b_ if e['op'] == 'Add' else a_ - b_))
+            return out
+        if k == 'Call' and (callee_decl(e) in ('std::cmp::Ord::max', 'std::cmp::Ord::min') or (callee_name(e) or '') in ('std::cmp::max', 'std::cmp::min')) and len(e['args']) == 2:
+            is_max = (callee_name(e) or callee_decl(e)).endswith('max')
+            out = []
+            for (c1, a_) in ev(e['args'][0], env):
+                for (c2, b_) in ev(e['args'][1], env):
+                    a_ge_b = ('le0', b_ - a_)
+                    out.append((And(c1, c2, a_ge_b), a_ if is_max else b_))
+                    out.append((And(c1, c2, Not(a_ge_b)), b_ if is_max else a_))
+            return out
+        if k == 'Call' and callee_decl(e) in ('std::clone::Clone::clone', 'std::ops::Deref::deref') and e['args']: return ev(e['args'][0], env)
+        return [(TRUE, sym('x:%s' % pp(e)[:40]))]
+    def cond(e, env):
+        """alternatives (constraint for true, constraint for false) of a Boolean condition; unknown conditions constrain nothing"""
+        e = strip(e)
+        if e['k'] == 'Binary' and e['op'] in ('Ge', 'Gt', 'Le', 'Lt', 'Eq', 'Ne'):
+            out = []
+            for (c1, a_) in ev(e['lhs'], env):
+                for (c2, b_) in ev(e['rhs'], env):
+                    d = a_ - b_
+                    tt = {'Ge': ('le0', -d), 'Gt': ('le0', -d + 1), 'Le': ('le0', d), 'Lt': ('le0', d + 1), 'Eq': ('eq0', d), 'Ne': Not(('eq0', d))}[e['op']]
+                    out.append((And(c1, c2, tt), And(c1, c2, Not(tt))))
+            return out
+        if e['k'] == 'Unary' and e['op'] == 'Not': return [(f_, t_) for (t_, f_) in cond(e['arg'], env)]
+        return [(TRUE, TRUE)]
+    # paths: (path constraint, env, [inserted values])
+    def run(e, states):
+        while e['k'] in ('Use', 'NeverToAny'): e = e['source']
+        k = e['k']
+        if k == 'Block':
+            for st in e['stmts']:
+                if st['k'] == 'Let':
+                    q = unwrap_pat(st['pat'])
+                    if st.get('init') is not None:
+                        states = run(st['init'], states)
+                        if q['k'] == 'Binding' and st['init']['ty'].get('s') in INT:
+                            nxt = []
+                            for (pc, env, ins) in states:
+                                for (c_, v_) in ev(st['init'], env):
+                                    e2 = dict(env); e2[q['var']] = v_; nxt.append((And(pc, c_), e2, ins))
+                            states = nxt
+                else:
+                    states = run(st['expr'], states)
+            if e['expr'] is not None: states = run(e['expr'], states)
+            return states
+        if k in ('Assign', 'AssignOp') and e['lhs']['k'] == 'VarRef':
+            states = run(e['rhs'], states)
+            v = e['lhs']['var']
+            nxt = []
+            for (pc, env, ins) in states:
+                for (c_, r_) in ev(e['rhs'], env):
+                    e2 = dict(env)
+                    if k == 'Assign': e2[v] = r_
+                    else:
+                        cur = env.get(v)
+                        if cur is None: cur = sym('v:' + v)
+                        if e['op'].startswith('Add'): e2[v] = cur + r_
+                        elif e['op'].startswith('Sub'): e2[v] = cur - r_
+                        else: raise Undec('%s on %s' % (e['op'], v.split('#')[0]))
+                    nxt.append((And(pc, c_), e2, ins))
+            return nxt
+        if k == 'If':
+            c = e['cond']
+            out = []
+            if c['k'] == 'Let':
+                looked = any(x['k'] == 'Call' and (callee_name(x) or '').split('::')[-1] in ('get', 'get_mut', 'contains_key', 'entry', 'get_key_value') and root_var(x['args'][0]) == TBL for x in walk(c['expr']))
+                for (pc, env, ins) in states:
+                    et = dict(env); et['#looked'] = env.get('#looked') or looked
+                    ee = dict(env); ee['#looked'] = env.get('#looked') or looked
+                    out += run(e['then'], [(pc, et, ins)])
+                    out += run(e['else'], [(pc, ee, ins)]) if e.get('else') is not None else [(pc, ee, ins)]
+                return out
+            looked = any(x['k'] == 'Call' and (callee_name(x) or '').split('::')[-1] in ('contains_key', 'get') and root_var(x['args'][0]) == TBL for x in walk(c))
+            for (pc, env, ins) in states:
+                env = dict(env); env['#looked'] = env.get('#looked') or looked
+                for (tc, fc) in cond(c, env):
+                    out += run(e['then'], [(And(pc, tc), dict(env), ins)])
+                    out += run(e['else'], [(And(pc, fc), dict(env), ins)]) if e.get('else') is not None else [(And(pc, fc), dict(env), ins)]
+            return out
+        if k == 'Match':
+            if e.get('source') == 'ForLoopDesugar': return states            # an inner loop: not part of this step
+            looked = any(x['k'] == 'Call' and (callee_name(x) or '').split('::')[-1] in ('get', 'get_mut', 'contains_key', 'entry') and x['args'] and root_var(x['args'][0]) == TBL for x in walk(e['scrutinee']))
+            states = run(e['scrutinee'], states)
+            out = []
+            for a_ in e['arms']:
+                sub = [(pc, dict(env, **{'#looked': env.get('#looked') or looked}), ins) for (pc, env, ins) in states]
+                out += run(a_['body'], sub)
+            return out
+        if k == 'Call':
+            for arg in e['args']: states = run(arg, states)
+            if callee_name(e) == 'std::collections::HashMap::insert' and len(e['args']) == 3 and root_var(e['args'][0]) == TBL:
+                nxt = []
+                for (pc, env, ins) in states:
+                    for (c_, v_) in ev(e['args'][2], env):
+                        nxt.append((And(pc, c_), env, ins + [(v_, bool(env.get('#looked')), e['loc'])]))
+                return nxt
+            return states
+        if k in ('Return', 'Break', 'Continue'): return []
+        from facts import children
+        for ch in children(e): states = run(ch, states)
+        return states
+    # registration steps: bodies of the innermost loops that contain an insert into the table
+    steps = []
+    for (it, pat, body) in __import__('engine_l').for_loops(t['body']):
+        has = [x for x in walk(body) if x in inserts or (x['k'] == 'Call' and callee_name(x) == 'std::collections::HashMap::insert' and x['args'] and root_var(x['args'][0]) == TBL)]
+        inner = any(any(y['k'] == 'Call' and callee_name(y) == 'std::collections::HashMap::insert' and y['args'] and root_var(y['args'][0]) == TBL for y in walk(b2)) for (_i, _p, b2) in __import__('engine_l').for_loops(body))
+        if has and not inner: steps.append(body)
     n = 0
-    def blocks(e):
-        for b in walk(e):
-            if b['k'] == 'Block': yield b
-    for b in blocks(t['body']):
-        sts = stmts_in_order(b)
-        for i, s in enumerate(sts):
-            e = s['init'] if s['k'] == 'Let' else s['expr']
-            if e is None: continue
-            e0 = strip(e)
-            if not (e0['k'] == 'Call' and callee_name(e0) == 'std::collections::HashMap::insert' and root_var(e0['args'][0]) and root_var(e0['args'][0]).startswith('variable_indexes')): continue
-            n += 1
-            val = strip(e0['args'][2])
-            ok = False; why = ''
-            if val['k'] == 'Field' and val.get('field_name') == 'id':
-                # preload: afterwards counter > id must hold
-                src = root_var(val['lhs'])
-                nxt = sts[i + 1]['expr'] if i + 1 < len(sts) and sts[i + 1]['k'] != 'Let' else None
-                why = 'after preloading id the counter must be raised above it: `if id >= counter { counter = id + 1 }`'
-                if nxt is not None and nxt['k'] == 'If' and nxt['else'] is None:
-                    c = strip(nxt['cond'])
-                    asg = [x for x in walk(nxt['then']) if x['k'] == 'Assign']
-                    if c['k'] == 'Binary' and len(asg) == 1:
-                        l, r = strip(c['lhs']), strip(c['rhs'])
-                        def is_id(x): return x['k'] == 'Field' and x.get('field_name') == 'id' and root_var(x['lhs']) == src
-                        def is_ctr(x): return x['k'] == 'VarRef' and x['var'].startswith('var_id_counter')
-                        cond_ok = (c['op'] == 'Ge' and is_id(l) and is_ctr(r)) or (c['op'] == 'Le' and is_ctr(l) and is_id(r))
-                        rhs = strip(asg[0]['rhs'])
-                        asg_ok = is_ctr(strip(asg[0]['lhs'])) and rhs['k'] == 'Binary' and rhs['op'] == 'Add' and is_id(strip(rhs['lhs'])) and \
-                            strip(rhs['rhs'])['k'] == 'Literal' and strip(rhs['rhs']).get('value') == '1'
-                        ok = cond_ok and asg_ok
-            elif val['k'] == 'VarRef':
-                # fresh: var_id = counter; counter += 1  (in that order, before or after the insert, nothing else touching the counter)
-                vid = val['var']
-                why = 'a fresh id must be the current counter value and the counter must then grow: `id = counter; counter += 1`'
-                seq = []
-                for s2 in sts:
-                    e2 = s2['init'] if s2['k'] == 'Let' else s2['expr']
-                    if e2 is None: continue
-                    e2 = strip(e2)
-                    if e2['k'] == 'Assign' and root_var(e2['lhs']) == vid and strip(e2['rhs'])['k'] == 'VarRef' and strip(e2['rhs'])['var'].startswith('var_id_counter'): seq.append('take')
-                    elif e2['k'] == 'AssignOp' and root_var(e2['lhs']) and root_var(e2['lhs']).startswith('var_id_counter') and e2['op'].startswith('Add') and strip(e2['rhs']).get('value') == '1': seq.append('inc')
-                    elif e2['k'] in ('Assign', 'AssignOp') and root_var(e2['lhs']) and root_var(e2['lhs']).startswith('var_id_counter'): seq.append('other')
-                    elif s2['k'] == 'Let' and unwrap_pat(s2['pat']).get('var') == vid and s2['init'] is not None:
-                        i0 = strip(s2['init'])
-                        if i0['k'] == 'VarRef' and i0['var'].startswith('var_id_counter'): seq.append('take')
-                ok = seq == ['take', 'inc']
-                why += ' (found %s)' % seq
-            R.count('X5:id-registration-sites'); R.obligation(ok, 'X5 #%d' % n)
-            if not ok:
-                R.violation('%s / X5 / registration #%d' % (fn, n), 'X5', 'id counter invariant (counter > every registered id) not maintained: ' + why, e0['loc'])
-    # the look-up must come before the fresh branch: ids are reused for known names
-    gets = [x for x in walk(t['body']) if x['k'] == 'Call' and callee_name(x) == 'std::collections::HashMap::get' and (root_var(x['args'][0]) or '').startswith('variable_indexes')]
-    R.count('X5:name-lookups', len(gets)); R.obligation(len(gets) == 1, 'X5 lookup')
-    if len(gets) != 1: R.violation(fn + ' / X5 / name look-up', 'X5', 'a variable name must be looked up in the name table before a fresh id is taken (found %d look-ups)' % len(gets))
-    # the counter starts at 0 and has no other writers
-    writes = [x for x in walk(t['body']) if x['k'] in ('Assign', 'AssignOp') and (root_var(x['lhs']) or '').startswith('var_id_counter')]
-    R.count('X5:counter-writes', len(writes)); R.obligation(len(writes) == 2, 'X5 writers')
-    if len(writes) != 2: R.violation(fn + ' / X5 / counter writers', 'X5', 'the id counter is written at %d places, expected exactly the two that maintain the invariant' % len(writes))
-    if n < 2: R.violation(fn + ' / X5 / VACUITY', 'VACUITY', 'expected 2 id registration sites, found %d' % n)
+    for body in steps:
+        try:
+            paths = run(body, [(TRUE, {CTR: C0}, [])])
+        except Undec as u:
+            R.violation(fn + ' / X5 / UNDECIDABLE', 'UNDECIDABLE', 'cannot follow the id counter: %s' % u); continue
+        # a step that registers ids given from outside (the preloaded ordering: the id is a field of the loop element) registers every element:
+        # no path through the step may skip the insert (a listed variable that is not registered would later be given a fresh id)
+        given = lambda v_: any(isinstance(vv, tuple) and vv[0] == 'int' and str(vv[1]).startswith('f:') for vv in v_.terms)
+        if any(given(v_) for (_pc, _env, ins) in paths for (v_, _l, _loc) in ins):
+            skipping = [pc for (pc, _env, ins) in paths if not any(given(v_) for (v_, _l, _loc) in ins) and find_counterexample([], Not(pc))[0] is not None]
+            R.count('X5:preload-paths', len(paths)); R.obligation(not skipping, 'X5 preload registers all')
+            if skipping:
+                R.violation(fn + ' / X5 / preloaded ordering', 'X5', 'some path through the loop over the given ordering does not register the listed variable with its listed id (%d of %d paths)' % (len(skipping), len(paths)))
+        for (pc, env, ins) in paths:
+            c1 = env.get(CTR)
+            for (v_, looked, loc) in ins:
+                n += 1
+                fresh = any(vv == ('int', 'counter') for vv in v_.terms)
+                goals = [('le0', v_ + 1 - c1), ('le0', C0 - c1)]
+                if fresh: goals.append(('le0', C0 - v_))
+                cex, _ = find_counterexample([pc], And(*goals))
+                ok = cex is None and (looked or not fresh)
+                R.count('X5:id-registration-sites'); R.obligation(ok, 'X5 #%d' % n)
+                if not ok:
+                    why = 'after registering id %r the counter is %r (was `counter`)' % (v_, c1) if cex is not None else 'a fresh id is taken without looking the name up in the table first'
+                    R.violation('%s / X5 / registration #%d' % (fn, n), 'X5', 'id counter invariant (the counter stays above every registered id, a fresh id is not below it, known names keep their id) not maintained: %s' % why, loc)
+    # the counter has no writers outside the registration steps
+    step_ids = set(id(x) for b_ in steps for x in walk(b_))
+    stray = [x for x in walk(t['body']) if x['k'] in ('Assign', 'AssignOp') and root_var(x['lhs']) == CTR and id(x) not in step_ids]
+    R.count('X5:counter-writes', len([x for x in walk(t['body']) if x['k'] in ('Assign', 'AssignOp') and root_var(x['lhs']) == CTR])); R.obligation(not stray, 'X5 writers')
+    if stray: R.violation(fn + ' / X5 / counter writers', 'X5', 'the id counter is written outside the steps that register an id', stray[0].get('loc'))
+    if n < 2: R.violation(fn + ' / X5 / VACUITY', 'VACUITY', 'expected at least 2 id registrations (preloaded ordering, fresh names), found %d' % n)
 
 # ------------------------------------------------------------------------------------------------ X6 sibling agreement
 def recursive_fields(lib):
